@@ -35,6 +35,8 @@ type Config struct {
 	Snap     bool     `json:"snap,omitempty"`  // side-snapshot the store around every op
 	ReadBack bool     `json:"readback,omitempty"` // read the checkpoint back after every op
 	Extra    map[string]int64 `json:"extra,omitempty"` // scenario-specific knobs
+	Notes    map[string]string `json:"notes,omitempty"` // scenario-specific string knobs (e.g. crash points)
+	DBPath   string   `json:"-"` // run on an existing SQLite file (crash recovery tails); never part of a replay file
 }
 
 type Op struct {
